@@ -10,7 +10,8 @@ let xroundtrip (line : string) : string =
   let a = xt_doc d in
   (* C19_to_ast_left_inverse on this case *)
   let reorder = if errs = [] then (if a = xt_reorder c.xc_ast then "t" else "f") else "-" in
-  "build=" ^ (if errs = [] then "ok" else "err") ^ " ast=" ^ string_of_document a ^ " reorder=" ^ reorder
+  let closed = match c.xc_schema with None -> "-" | Some s -> if xs_closedb s then "t" else "f" in
+  "build=" ^ (if errs = [] then "ok" else "err") ^ " ast=" ^ string_of_document a ^ " reorder=" ^ reorder ^ " closed=" ^ closed
 
 (* <hex schema> <hex type name> <hex text> <schema term> <selections term> *)
 let xfieldset (line : string) : string =
